@@ -5,6 +5,7 @@ import (
 	"regexp"
 	"strconv"
 	"strings"
+	"time"
 )
 
 func init() {
@@ -92,6 +93,13 @@ func c12Trans(c *Ctx, pre *Node, st Step, res *Result, post *State) ([]Violation
 		if len(offs) > 0 {
 			gotOff = offs[len(offs)-1]
 		}
+		// the Date line shows the stored instant (wall clock in the stored offset)
+		if t, err := time.Parse("2006-01-02 15:04:05 -0700", strings.TrimSpace(en.Date)[:min(25, len(strings.TrimSpace(en.Date)))]); err == nil {
+			if fmt.Sprint(t.Unix()) != fixedNow {
+				vs = append(vs, Violation{Oracle: "log-shows-stored-instant", Command: "log", Tags: tags, Trace: append(append([]Step{}, trace...), Run("log", "-n", "1")),
+					Detail: fmt.Sprintf("log shows date %q = instant %d; the commit stores %s", en.Date, t.Unix(), fixedNow)})
+			}
+		}
 		wantMsg := strings.TrimSuffix(cm.Message, "\n")
 		if en.ID != tip || en.Author != name+" <"+email+">" || gotOff != fmtOffset(off) || en.Message != wantMsg {
 			vs = append(vs, Violation{Oracle: "log-reads-back", Command: "log", Tags: tags, Trace: append(append([]Step{}, trace...), Run("log", "-n", "1")),
@@ -154,7 +162,7 @@ func checkC12(e *RunEnv) *CheckResult {
 			now, _ := strconv.Atoi(z[:strings.IndexByte(z, '/')])
 			cs = append(cs, Case{Base: base, BaseName: "S0+staged", BaseSeed: seed, Steps: []Step{Run("commit", "-m", "m").WithEnv("TZ=VERIFTZ:" + z).WithTags(append(offTags(now), "zone-transition-near")...)}})
 		}
-		names := []string{"Émile Zoë", "Łukasz Żak", "山田 太郎", "Sammy Davis Jr.", "'quoted'", "Build Bot #7", "Ann -> Bee", "1 > 2", "Bee >", "A", "Al Bo", "Al  Bo", "é ü", "O'N", "a>b", "x@y", strings.Repeat("N", 200)}
+		names := []string{"Doe, Jane", "build-robot[bot]", "Émile Zoë", "Łukasz Żak", "山田 太郎", "Sammy Davis Jr.", "'quoted'", "Build Bot #7", "Ann -> Bee", "1 > 2", "Bee >", "A", "Al Bo", "Al  Bo", "é ü", "O'N", "a>b", "x@y", strings.Repeat("N", 200)}
 		emails := []string{"a@b.co", "a.b+c-d_e@x-y.z9.org", "A9@a1.b2.info"}
 		messages := []string{"", "m", "a: b", "l1\nl2", "l1\n\nl3", "\nlead", "trail\n", "é", strings.Repeat("x", 4096), "tree deadbeef", "author x", "100% of %s %d", "50%",
 			strings.Repeat(strings.Repeat("forty kilobytes in eleven lines ", 120)+"\n", 11) + "end", "subject\n\n" + strings.Repeat("y", 70000)}
